@@ -343,6 +343,8 @@ def _advance_rposition(ck, R, F, b, names):
          let last = bytes.iter().rposition(|&b| b != 0xFF)?;  bytes.truncate(last + 1);  bytes[last] += 1;  Some(bytes)
     — the same three arms: the last byte that is not 0xFF is incremented, the 0xFF bytes after it are dropped, and
     a key made only of 0xFF bytes (or empty) has no successor."""
+    if "truncate" not in names and "push" in names:
+        return _advance_rposition_copy(ck, R, F, b, names)
     ck.ob(R, "calls", set(names) <= {"deref", "deref_mut", "iter", "rposition", "branch", "from_residual", "truncate", "index_mut", "index"}, f"advance_key calls {names}", b, nontrivial=False)
     rp = calls(b, "::rposition")
     tr = calls(b, "Vec::<T, A>::truncate") or calls(b, "::truncate")
@@ -393,4 +395,53 @@ def _is_last(e, site):
     p = unwrap_payload(e, "Some")
     if p is not None and p.strip().k == "call" and p.strip().x.get("site") == site:
         return True
-    return any(x.k == "call" and x.x.get("site") == site for x in e.walk()) and s.k in ("field", "call", "var", "phi")
+    return False
+
+
+def _rposition_not_ff(F, b, rp):
+    """the rposition call scans the given key (no adaptor in between) for the last byte that is not 0xFF"""
+    recv = b.arg_exprs(rp[0])[0]
+    over = any(x.k == "arg" and x.x.get("name") == "bytes" for x in recv.walk()) and any(x.k == "call" and x.x["path"].endswith("::iter") for x in recv.walk()) \
+        and not any(x.k == "call" and x.x["path"].rsplit("::", 1)[-1] in ("rev", "skip", "take", "step_by", "filter", "map") for x in recv.walk())
+    cl = F.closures_of(b.path)
+    pred_ok = False
+    if len(cl) == 1:
+        r = cl[0].expr_at_return().strip()
+        if r.k == "bin" and r.x.get("op") in ("Ne", "Lt"):
+            x, y = r.a[0].strip(), r.a[1].strip()
+            pred_ok = x.k == "arg" and x.x["i"] == 2 and const_val(y) == 255
+    return over and pred_ok
+
+
+def _advance_rposition_copy(ck, R, F, b, names):
+    """third accepted idiom of advance_key — the successor is built in a new vector:
+         let last = bytes.iter().rposition(|b| *b != 0xFF)?;
+         let mut next = Vec::with_capacity(..); next.extend_from_slice(&bytes[..last]); next.push(bytes[last] + 1); Some(next)"""
+    allowed = {"as_ref", "deref", "iter", "rposition", "branch", "from_residual", "with_capacity", "new", "extend_from_slice", "push", "index", "as_slice", "starts_with", "gt", "lt", "begin_panic", "panic", "panic_fmt"}
+    ck.ob(R, "calls", set(names) <= allowed, f"advance_key calls {names}", b, nontrivial=False)
+    rp = calls(b, "::rposition")
+    ext = [s for s, c, t in calls(b, "Vec::<T, A>::extend_from_slice")]
+    psh = [s for s, c, t in calls(b, "Vec::<T, A>::push")]
+    if not (len(rp) == 1 and len(ext) == 1 and len(psh) == 1 and not b.loops()):
+        ck.ob(R, "shape", False, "advance_key is none of the three recognised forms (last_mut/checked_add/pop loop; rposition + truncate + increment in place; rposition + copy of the head + incremented byte)", b)
+        return
+    ck.ob(R, "arm/overflow", _rposition_not_ff(F, b, rp[0]), "trailing 0xFF bytes are skipped: rposition over bytes.iter() with the predicate `byte != 0xFF` finds the last byte that can be incremented", b, rp[0][0])
+    ea, pa = b.arg_exprs(ext[0]), b.arg_exprs(psh[0])
+    same_vec = ea[0].strip().ident() == pa[0].strip().ident() or (ea[0].strip().k == pa[0].strip().k == "call" and ea[0].strip().x.get("site") == pa[0].strip().x.get("site"))
+    head = ea[1].strip()
+    ok_head = head.k == "call" and head.x["path"].endswith("::index") and any(x.k == "arg" and x.x.get("name") == "bytes" for x in head.a[0].walk()) and head.a[1].k == "agg" \
+        and (head.a[1].x.get("adt") or "").endswith("RangeTo") and _is_last(head.a[1].a[0], rp[0][0])
+    ck.ob(R, "arm/overflow-truncates", same_vec and ok_head and b.dominates(ext[0], psh[0]), f"the successor starts with the bytes before that position: extend_from_slice(&bytes[..last]) ({ea[1].show()[:60]}), then one more byte", b, ext[0])
+    cv = checked(pa[1])
+    ok_inc = False
+    if cv and cv[0] == "Add" and const_val(cv[2]) == 1:
+        x = cv[1].strip()
+        ok_inc = (x.k == "index" and any(w.k == "arg" and w.x.get("name") == "bytes" for w in x.a[0].walk()) and len(x.a) > 1 and _is_last(x.a[1], rp[0][0])) or \
+                 (x.k == "call" and x.x["path"].endswith("::index") and any(w.k == "arg" and w.x.get("name") == "bytes" for w in x.a[0].walk()) and _is_last(x.a[1], rp[0][0]))
+    ck.ob(R, "increments-last-byte-by-one", ok_inc, f"the last byte of the successor is bytes[last] + 1 ({pa[1].show()[:60]})", b, psh[0])
+    rets = return_alts(b)
+    some_ret = [alt for alt in rets if alt.k == "agg" and alt.x.get("variant") == "Some"]
+    none_ret = [alt for alt in rets if (alt.k == "agg" and alt.x.get("variant") == "None") or (alt.k == "call" and alt.x["path"].endswith("::from_residual") and any(x.k == "call" and x.x.get("site") == rp[0][0] for x in alt.walk()))]
+    ok_s = len(some_ret) == 1 and some_ret[0].x.get("site") is not None and b.dominates(psh[0], some_ret[0].x["site"]) and some_ret[0].a[0].strip().ident() == pa[0].strip().ident()
+    ck.ob(R, "arm/no-overflow", bool(ok_s), "after the head and the incremented byte were appended, Some(that vector) is returned", b)
+    ck.ob(R, "arm/empty", len(none_ret) == 1 and len(rets) == 2, "no byte can be incremented (rposition is None): None is returned (and these are the only two exits)", b)
